@@ -38,6 +38,8 @@ var annotSets = []map[string]string{
 	{aFmt: "json", aCreated: "2020-01-02T03:04:05Z"},
 	{aFmt: "yaml", aCreated: "2021-02-03T04:05:06Z"},
 	{aFmt: "json", aExtra: ""},
+	{}, // "annotations":{} (present but empty)
+	{aFmt: "js\"on/ü", aCreated: "2022-03-04T05:06:07Z"},
 }
 
 // annotation filters (index 0 = none). Documented semantics
@@ -50,6 +52,7 @@ var annotFilters = []map[string]string{
 	{aFmt: "toml"},
 	{aFmt: "json", aCreated: "2020-01-02T03:04:05Z"},
 	{aExtra: ""},
+	{}, // a non-nil empty map: selects everything
 }
 
 // sort options (index 0 = none): annotation, descending
@@ -87,6 +90,21 @@ var (
 	baseLayer    = []byte("base-layer-bytes")
 	baseManifest []byte
 	baseDigest   string
+	// a second platform image and a multi-platform index {linux/amd64: base image, linux/arm64: armManifest} (tag "multi")
+	armManifest []byte
+	armDigest   string
+	multiIndex  []byte
+	multiDigest string
+)
+
+const (
+	multiTag  = "multi"
+	latestTag = "latest" // the base image also carries the default tag
+	sharedTag = "shared" // a tag several artifacts are pushed to (the tag moves)
+	extRepo   = "proj/refs"
+	platAMD64 = "linux/amd64"
+	platARM64 = "linux/arm64"
+	strayTag  = "zz" // a tag that never exists, used in tag+digest references
 )
 
 func init() {
@@ -95,6 +113,15 @@ func init() {
 		descJSON(rm.MTOCIConfig, rm.Digest("sha256", baseConfig), len(baseConfig), ""),
 		descJSON(rm.MTOCILayer, rm.Digest("sha256", baseLayer), len(baseLayer), "")))
 	baseDigest = rm.Digest("sha256", baseManifest)
+	armManifest = []byte(fmt.Sprintf(`{"schemaVersion":2,"mediaType":%s,"config":%s,"layers":[%s]}`,
+		jstr(rm.MTOCIManifest),
+		descJSON(rm.MTOCIConfig, rm.Digest("sha256", baseConfig), len(baseConfig), ""),
+		descJSON(rm.MTOCILayer, rm.Digest("sha256", payloads[0]), len(payloads[0]), "")))
+	armDigest = rm.Digest("sha256", armManifest)
+	multiIndex = []byte(fmt.Sprintf(`{"schemaVersion":2,"mediaType":%s,"manifests":[%s,%s]}`, jstr(rm.MTOCIIndex),
+		descJSON(rm.MTOCIManifest, baseDigest, len(baseManifest), `,"platform":{"architecture":"amd64","os":"linux"}`),
+		descJSON(rm.MTOCIManifest, armDigest, len(armManifest), `,"platform":{"architecture":"arm64","os":"linux"}`)))
+	multiDigest = rm.Digest("sha256", multiIndex)
 }
 
 // Art is one artifact of the case's pool (plain data).
@@ -107,6 +134,11 @@ type Art struct {
 	Payload int    `json:"payload"` // 0..2, distinguishes otherwise equal artifacts
 	ByTag   bool   `json:"by_tag"`  // pushed to tag "art<i>" instead of by digest
 	Child   bool   `json:"child"`   // digest push with WithManifestChild (as regctl artifact put does)
+	// dimensions added by the generator-domain audit (zero values = the original behaviour)
+	Shared         bool `json:"shared,omitempty"`          // with ByTag: pushed to the tag "shared" that other artifacts use too
+	Sha512         bool `json:"sha512,omitempty"`          // the artifact is identified by its sha512 digest (pushed by digest)
+	PartialSubject bool `json:"partial_subject,omitempty"` // subject descriptor carries only the digest
+	NoMediaType    bool `json:"no_media_type,omitempty"`   // image kind: body without the optional mediaType field
 }
 
 // resolved artifact
@@ -171,6 +203,9 @@ func build(arts []Art, sha512Absent bool) *universe {
 			r.subject = u.arts[0].digest
 			sdesc = descJSON(u.arts[0].mediaType, u.arts[0].digest, len(u.arts[0].body), "")
 		}
+		if a.PartialSubject {
+			sdesc = `{"digest":` + jstr(r.subject) + `}`
+		}
 		ann := annotSets[norm(a.Annot, len(annotSets))]
 		r.expAnnot = ann
 		annJSON := ""
@@ -222,12 +257,22 @@ func build(arts []Art, sha512Absent bool) *universe {
 			} else {
 				head = `"artifactType":` + jstr(ty) + `,"config":` + descJSON(rm.MTOCIEmpty, rm.Digest("sha256", emptyJSON), len(emptyJSON), "")
 			}
-			r.body = []byte(fmt.Sprintf(`{"schemaVersion":2,"mediaType":%s,%s,"layers":[%s],"subject":%s%s}`,
-				jstr(rm.MTOCIManifest), head, ldesc, sdesc, annJSON))
+			mtField := `"mediaType":` + jstr(rm.MTOCIManifest) + ","
+			if a.NoMediaType {
+				mtField = "" // OCI image manifest without the optional mediaType field
+			}
+			r.body = []byte(fmt.Sprintf(`{"schemaVersion":2,%s%s,"layers":[%s],"subject":%s%s}`,
+				mtField, head, ldesc, sdesc, annJSON))
 		}
 		r.digest = rm.Digest("sha256", r.body)
-		if a.ByTag {
+		if a.Sha512 {
+			r.digest = rm.Digest("sha512", r.body)
+		}
+		if a.ByTag && !a.Sha512 { // a tag push with a non-canonical digest is marked experimental in the client: not generated
 			r.tag = fmt.Sprintf("art%d", i)
+			if a.Shared {
+				r.tag = sharedTag
+			}
 		}
 		u.arts = append(u.arts, r)
 		if _, dup := u.byDigest[r.digest]; !dup {
